@@ -208,6 +208,16 @@ def run(ctx) -> None:
         ok = caught and len(q) == 1 and (q[0].extra.get("args") or [""])[0] == "DirDeletedEvent(self.watch.path)" and len(stops) == 1 and not diffs and not loops and p.outcome[0] == "return"
         ctx.check(ok, RR, "polling: root gone -> one DirDeletedEvent(watch.path), stop, return", f"on a failing fresh snapshot the emitter does: queue {[(x.extra.get('args') or [''])[0] for x in q]}, stops={len(stops)}, diff computed={bool(diffs)}, outcome={p.outcome[0]}, caught={caught}", pf.loc)
 
+    # ---------------------------------------------------------------- (b') the root keeps its spelling from the watch to the map
+    RSP = ctx.rule(
+        "C07/root-spelling-preserved",
+        "the emitter recognises the deletion of the root by comparing the record's path with watch.path: on the way from watch.path "
+        "to the reader's root field and map keys the root passes only through copies and the bijective codecs (os.fsencode / "
+        "os.fsdecode / the emitter's decode helper), never through a normalising or resolving call",
+        floor=8,
+    )
+    root_spelling(ctx, RSP, P)
+
     # ---------------------------------------------------------------- (c) swallow is local
     n = 0
     for p in bp:
@@ -227,6 +237,119 @@ def run(ctx) -> None:
     ]
 
 
+CODECS = {"os.fsencode", "os.fsdecode"}
+
+
+def root_spelling(ctx, RSP, P) -> None:
+    from ..flow import origins
+
+    def first_param(fi):
+        ps = [a.arg for a in fi.node.args.posonlyargs + fi.node.args.args if a.arg not in ("self", "cls")]
+        if not ps:
+            raise AnalysisError(f"anchor vanished: {fi.qualname} has no path parameter")
+        return ps[0]
+
+    def need(cls, meth):
+        fi = P.find_method(cls, meth)
+        if fi is None:
+            raise AnalysisError(f"anchor vanished: {cls}.{meth}")
+        return fi
+
+    def judge(fi, expr, want, label, codecs=CODECS, line=None):
+        got = origins(fi.node, expr)
+        bad = sorted((b, w) for b, w in got if not want(b) or not set(w) <= codecs)
+        ctx.check(
+            not bad,
+            RSP,
+            label,
+            "the root does not arrive here in the spelling the caller scheduled: "
+            + "; ".join(f"`{ast.unparse(expr)}` can be {' <- '.join(reversed(w)) + ' of ' if w else ''}{b}" for b, w in bad)
+            + " (only copies and os.fsencode/os.fsdecode preserve it; the emitter's `== watch.path` test then never recognises the root's "
+            "deletion: no DirDeletedEvent for the root, the emitter never stops)",
+            f"{fi.module.relpath}:{line or getattr(expr, 'lineno', fi.node.lineno)}",
+            {"origins": sorted((b, list(w)) for b, w in got)},
+        )
+
+    def ctor_arg(fi, ctor, what):
+        calls = [n for n in ast.walk(fi.node) if isinstance(n, ast.Call) and isinstance(n.func, ast.Name) and n.func.id == ctor]
+        if not calls:
+            raise AnalysisError(f"anchor vanished: {fi.qualname} does not construct {ctor}")
+        c = calls[0]
+        if c.args:
+            return c.args[0]
+        for k in c.keywords:
+            if k.arg == "path":
+                return k.value
+        raise AnalysisError(f"anchor vanished: {what}: no path argument")
+
+    # A. emitter -> buffer
+    a = need("InotifyEmitter", "on_thread_start")
+    judge(a, ctor_arg(a, "InotifyBuffer", "InotifyBuffer(...)"), lambda b: b == "self.watch.path", "InotifyEmitter.on_thread_start -> InotifyBuffer(path)")
+    # B. buffer -> reader
+    b_ = need("InotifyBuffer", "__init__")
+    pb = first_param(b_)
+    judge(b_, ctor_arg(b_, "Inotify", "Inotify(...)"), lambda b: b == f"param:{pb}", "InotifyBuffer.__init__ -> Inotify(path)")
+    # C. reader: root field and initial install
+    c_ = need("Inotify", "__init__")
+    pc = first_param(c_)
+    nfield = ninst = 0
+    for n in ast.walk(c_.node):
+        if isinstance(n, ast.Assign) and any(isinstance(t, ast.Attribute) and ast.unparse(t) == "self._path" for t in n.targets):
+            nfield += 1
+            judge(c_, n.value, lambda b: b == f"param:{pc}", "Inotify.__init__ root field", line=n.lineno)
+        if isinstance(n, ast.Call) and ast.unparse(n.func) in ("self._add_dir_watch", "self._add_watch") and n.args:
+            ninst += 1
+            judge(c_, n.args[0], lambda b: b == f"param:{pc}", f"Inotify.__init__ -> {ast.unparse(n.func)}(path)", line=n.lineno)
+    if not nfield or not ninst:
+        raise AnalysisError("anchor vanished: Inotify.__init__ root field / initial install")
+    # D. _add_dir_watch watches its own argument
+    d_ = need("Inotify", "_add_dir_watch")
+    pd = first_param(d_)
+    own = [n for n in ast.walk(d_.node) if isinstance(n, ast.Call) and ast.unparse(n.func) == "self._add_watch" and n.args and origins(d_.node, n.args[0]) == {(f"param:{pd}", ())}]
+    ctx.check(bool(own), RSP, "Inotify._add_dir_watch watches its argument unchanged", "no _add_watch call receives the path parameter itself", d_.loc)
+    # E. _add_watch keys both maps by its argument
+    e_ = need("Inotify", "_add_watch")
+    pe = first_param(e_)
+    nk = 0
+    for n in ast.walk(e_.node):
+        if isinstance(n, ast.Assign) and len(n.targets) == 1 and isinstance(n.targets[0], ast.Subscript):
+            t = n.targets[0]
+            cont = ast.unparse(t.value)
+            if cont == "self._wd_for_path":
+                nk += 1
+                judge(e_, t.slice, lambda b: b == f"param:{pe}", "Inotify._add_watch path->wd key", codecs=set(), line=n.lineno)
+            elif cont == "self._path_for_wd":
+                nk += 1
+                judge(e_, n.value, lambda b: b == f"param:{pe}", "Inotify._add_watch wd->path value", codecs=set(), line=n.lineno)
+    if nk < 2:
+        raise AnalysisError("anchor vanished: Inotify._add_watch does not store both map entries")
+    # F. the comparison in the emitter, and the decode helper
+    q = need("InotifyEmitter", "queue_events")
+    dh = P.find_method("InotifyEmitter", "_decode_path")
+    helper_ok = set()
+    if dh is not None:
+        ph = first_param(dh)
+        rets = [n.value for n in ast.walk(dh.node) if isinstance(n, ast.Return) and n.value is not None]
+        o = set()
+        for r in rets:
+            o |= origins(dh.node, r)
+        if rets and all(b == f"param:{ph}" and set(w) <= CODECS for b, w in o):
+            helper_ok = {"self._decode_path"}
+        ctx.check(bool(helper_ok), RSP, "InotifyEmitter._decode_path is a codec", f"the decode helper can return {sorted(o)}: not the parameter passed through os.fsdecode at most", dh.loc)
+    ncmp = 0
+    for n in ast.walk(q.node):
+        if isinstance(n, ast.Compare) and len(n.ops) == 1 and isinstance(n.ops[0], (ast.Eq, ast.NotEq)):
+            sides = [n.left, n.comparators[0]]
+            ws = [x for x in sides if any(b == "self.watch.path" for b, _ in origins(q.node, x))]
+            if len(ws) == 1:
+                other = sides[1] if ws[0] is sides[0] else sides[0]
+                ncmp += 1
+                judge(q, ws[0], lambda b: b == "self.watch.path", "InotifyEmitter.queue_events root test, watch side", line=n.lineno)
+                judge(q, other, lambda b: b.endswith(".src_path"), "InotifyEmitter.queue_events root test, record side", codecs=CODECS | helper_ok, line=n.lineno)
+    if ncmp == 0:
+        raise AnalysisError("anchor vanished: InotifyEmitter.queue_events does not compare a record path with watch.path")
+
+
 IC = "observers/inotify_c.py"
 IB = "observers/inotify_buffer.py"
 IN = "observers/inotify.py"
@@ -242,6 +365,10 @@ VARIANTS = [
     dict(name="B polling keeps running after root loss", expect="fire", rule="C07/root-deletion", edits=[(PO, "                self.queue_event(DirDeletedEvent(self.watch.path))\n                self.stop()\n                return", "                self.queue_event(DirDeletedEvent(self.watch.path))\n                return")]),
     dict(name="B reader ignores root IGNORED", expect="fire", rule="C07/root-deletion", edits=[(IB, "                    if inotify_event.src_path == self._inotify.path:\n                        # Watch was removed explicitly (inotify_rm_watch(2)) or automatically (file\n                        # was deleted, or filesystem was unmounted), stop watching for events\n                        deleted_self = True\n                    continue", "                    continue")]),
     dict(name="B moved_from lookup without membership test", expect="fire", rule="C07/thread-body-exception-flow", edits=[(IC, "        if destination_event.cookie in self._moved_from_events:\n            return self._moved_from_events[destination_event.cookie].src_path\n\n        return None", "        return self._moved_from_events[destination_event.cookie].src_path")]),
+    dict(name="B reader normalises its root", expect="fire", rule="C07/root-spelling-preserved", edits=[(IC, "        self._path = path\n", "        self._path = path = os.path.normpath(path)\n")]),
+    dict(name="B emitter resolves the root before watching", expect="fire", rule="C07/root-spelling-preserved", edits=[(IN, "        path = os.fsencode(self.watch.path)\n", "        path = os.path.realpath(os.fsencode(self.watch.path))\n")]),
+    dict(name="B root test against the absolute path", expect="fire", rule="C07/root-spelling-preserved", edits=[(IN, "elif event.is_delete_self and src_path == self.watch.path:", "elif event.is_delete_self and src_path == os.path.abspath(self.watch.path):")]),
+    dict(name="E root kept in a second local", expect="silent", edits=[(IN, "        path = os.fsencode(self.watch.path)\n", "        root = self.watch.path\n        path = os.fsencode(root)\n")]),
     dict(name="E suppress -> try/except/pass", expect="silent", edits=[(IC, "                        with contextlib.suppress(OSError):\n                            self._add_dir_watch(inotify_event.src_path, self._event_mask, recursive=True)", "                        try:\n                            self._add_dir_watch(inotify_event.src_path, self._event_mask, recursive=True)\n                        except OSError:\n                            pass")]),
     dict(name="B arrival absorbs only FileNotFoundError", expect="fire", rule="C07/thread-body-exception-flow", edits=[(IC, "                        with contextlib.suppress(OSError):\n                            self._add_dir_watch(inotify_event.src_path", "                        with contextlib.suppress(FileNotFoundError):\n                            self._add_dir_watch(inotify_event.src_path")]),
     dict(name="E get(...) -> membership test + lookup", expect="silent", edits=[(IC, "if self._wd_for_path.get(path) == wd:", "if path in self._wd_for_path and self._wd_for_path[path] == wd:")]),
